@@ -52,7 +52,18 @@ try:
     log["check_exit"] = c.returncode
     log["check_secs"] = round(time.time() - t0)
     log["check_lines"] = [ln[:300] for ln in c.stdout.splitlines() if ln.startswith(("VIOLATION", "HARNESS", "INCONCLUSIVE", prop + " tier"))][:8]
-    ok = log["demo_without_patch_exit"] == 0 and log["demo_with_patch_exit"] != 0 and "2103 passed" in log["tests_with_patch"] and "12 failed" in log["tests_with_patch"]
+    head = sh("git -C /repo log --format=%h -1").stdout.strip()
+    bfile = f"/tmp/baseline_{head}.txt"
+    if not os.path.exists(bfile):
+        sh(f"git -C {wt} stash -q")
+        b = subprocess.run(["/venv/bin/python", "-m", "pytest", "-q", "-p", "no:cacheprovider", "tests"], cwd=wt, env=env, capture_output=True, text=True, timeout=1800)
+        sh(f"git -C {wt} stash pop -q")
+        open(bfile, "w").write(b.stdout.strip().splitlines()[-1])
+    base = open(bfile).read()
+    import re as _re
+    counts = lambda t: _re.findall(r"(\d+) (failed|passed|xfailed)", t)
+    log["tests_baseline_same_tree_without_patch"] = base
+    ok = log["demo_without_patch_exit"] == 0 and log["demo_with_patch_exit"] != 0 and counts(base) == counts(log["tests_with_patch"]) and bool(counts(base))
     log["confirmed"] = ok
     if ok:
         os.makedirs(out, exist_ok=True)
@@ -62,7 +73,7 @@ try:
                    "origin": "independent sub-agent given only the property text and its own scratch worktree",
                    "verified": {"how": "tools/keep_mutant.py in a scratch worktree of /repo HEAD " + sh("git -C /repo log --format=%h -1").stdout.strip(),
                                 "demo_exit_without_patch": log["demo_without_patch_exit"], "demo_exit_with_patch": log["demo_with_patch_exit"],
-                                "tests_with_patch": log["tests_with_patch"]},
+                                "tests_with_patch": log["tests_with_patch"], "tests_without_patch": log.get("tests_baseline_same_tree_without_patch")},
                    "check": {"cmd": f"VF_REPO=<scratch tree with patch> bin/check {prop} --tier quick", "exit": log["check_exit"],
                              "secs": log["check_secs"], "lines": log["check_lines"], "detected": log["check_exit"] == 1}},
                   open(os.path.join(out, "meta.json"), "w"), indent=1)
